@@ -521,7 +521,9 @@ Section Scripts.
       match get_unit (units s) evl with
       | None => None
       | Some u =>
-          if negb (is_alive s evl) then None else
+          (* evaltarget.validateTarget asks engine.IsAlive = still on the field (not removed by a death
+             check) and attribute state Alive *)
+          if negb (is_alive s evl) || negb (existsb (Z.eqb evl) (chars s ++ enemies s)) then None else
           match tt with
           | TAllies => if uchar u then Some evl else None
           | TEnemies => if uchar u then None else Some evl
